@@ -77,9 +77,9 @@ class P(Prop):
         (M, "TV.C04.insertionIndex_no_index_error", "T1 whole function: on every list __getInsertionIndex returns an index 0..N without reading outside 0..N-1 (no IndexError, no negative wrap); the model as run gives the same"),
         (M, "TV.C04.insertionIndexFrom_spec", "T2: on sorted timestamps (N>=2), any first step 2^j with 2*2^j<=N: result = number of timestamps <= ts"),
         (M, "TV.C04.insertionIndex_spec", "T2 with the code's first step: countP(<= ts); for a single observation countP(< ts)"),
-        (M, "TV.C04.insert_total", "insertObs(obs) on any track = the old observations in order with the new one at some position r <= N, names unchanged"),
+        (M, "TV.C04.insert_total", "insertObs(obs) on any track = the old observations in order with the new one at some position r <= N, feature table unchanged"),
         (M, "TV.C04.insert_sorted", "T3: insertion into a time-sorted track: permutation of new::old, still non-decreasing in time"),
-        (M, "TV.C04.extract_spec", "extract(a,b) = exactly the observations a..b (both ends included), feature names carried"),
+        (M, "TV.C04.extract_spec", "extract(a,b) = exactly the observations a..b (both ends included), feature table (names and columns) carried"),
         (M, "TV.C04.extractSpanTime_spec", "extractSpanTime = exactly the observations in the closed span, bounds in either order"),
         (M, "TV.C04.concat_spec", "t1 + t2 = observations of t1 then of t2; its table is t1's when the two lists of NAMES are equal position by position, the empty table otherwise"),
         (M, "TV.C04.decimateStep_spec", "track % n = sub-sequence at the positions = 0 mod n (i-th result = (i*n)-th source)"),
@@ -88,7 +88,7 @@ class P(Prop):
         (M, "TV.C04.dropLast_spec", "track < n = all but the last n observations (empty when n >= size)"),
         (M, "TV.C04.removeByIdx_spec", "removeObsList(distinct valid indices, any order) leaves exactly the other observations, returns the count"),
         (M, "TV.C04.removeByIdx_refuses_duplicates", "an index list with a repeated index removes nothing and returns 0"),
-        (M, "TV.C04.sort_spec", "sort with ANY sorting permutation from argsort: same records (permutation), non-decreasing times, names unchanged"),
+        (M, "TV.C04.sort_spec", "sort with ANY sorting permutation from argsort: same records (permutation), non-decreasing times, feature table unchanged"),
         (M, "TV.C04.argsort_isArgsort", "the model's argsort satisfies the sorting-permutation contract"),
         (M, "TV.C04.sortByTime_spec", "sort as run by the driver: permutation of the records, non-decreasing times"),
         # ---- the feature table (names -> columns) is carried over: reads by name
